@@ -134,54 +134,105 @@ def tol : Rat := mkRat CBV.Gen.c08Tol.1 CBV.Gen.c08Tol.2
 /-- float image of `2*np.pi` (the bound of the guard of `arc_from_theta`) -/
 def twoPiF : Rat := mkRat 884279719003555 140737488355328
 
+/-- the guard of `arc_from_theta`: `0 < abs(angle) < 2*np.pi` -/
+def thetaGuard (θ : Rat) : Bool := decide (0 < absR θ) && decide (absR θ < twoPiF)
+
+/-! ### Float post-processing (opaque: `sqrt` as a witness oracle, `acos`) -/
+
+/-- nearest-ish double of a rational (scaled to avoid overflow of huge numerators) -/
+def ratToFloat (q : Rat) : Float :=
+  Float.ofInt (q.num * (2 : Int) ^ 90 / (q.den : Int)) / Float.ofNat (2 ^ 90)
+
+/-- exact rational value of a finite non-negative double -/
+def floatToRat (f : Float) : Rat :=
+  let (m, e) := f.frExp
+  let n : Int := ((m * Float.ofNat (2 ^ 53)).toUInt64.toNat : Int)
+  if e ≥ 53 then (n * (2 : Int) ^ (e - 53).toNat : Int) else mkRat n (2 ^ (53 - e).toNat)
+
+/-- witness oracle: a double-precision square root, as an exact rational (always re-checked with `witOk`) -/
+def sqrtQ (x : Rat) : Rat := if x ≤ 0 then 0 else floatToRat (Float.sqrt (ratToFloat x))
+
+def piF : Float := 3.141592653589793
+
 structure ThetaOut where
   centre : V
   mid : V
 
-/-- `arc_from_theta` over `Rat` with its guard `0 < |angle| < 2π`; `none` = `ValueError`. -/
-def arcFromTheta (p1 p2 a : V) (θ c s wrm wc wR : Rat) : Option ThetaOut :=
-  if 0 < absR θ ∧ absR θ < twoPiF then
-    some ⟨thetaCentre p1 p2 a c s wrm wc, thetaMid p1 p2 a θ c s wrm wc wR⟩
-  else none
+/-- `AngleEdge.third_point`: `Angle.__init__` normalises the axis, then `arc_from_theta` with its guard
+    (`.error "reject"` = `ValueError`); the square roots come from the witness oracle and are checked. -/
+def arcFromTheta (p1 p2 a : V) (θ c s eps : Rat) : Except String ThetaOut :=
+  if !thetaGuard θ then .error "reject" else
+  let wa := sqrtQ (nsq a)
+  if wa = 0 then .error "badwit axis0" else
+  let au := unitVec a wa
+  let wrm := sqrtQ (nsq (cross (sub p2 p1) au))
+  let wc := sqrtQ (nsq (thetaChord p1 p2 au))
+  let C := thetaCentre p1 p2 au c s wrm wc
+  let wR := sqrtQ (nsq (sub p1 C))
+  if !witOk wa (nsq a) eps then .error "badwit axis"
+  else if !witOk wrm (nsq (cross (sub p2 p1) au)) eps then .error "badwit rm"
+  else if !witOk wc (nsq (thetaChord p1 p2 au)) eps then .error "badwit chord"
+  else if !witOk wR (nsq (sub p1 C)) eps then .error "badwit radius"
+  else .ok ⟨C, thetaMid p1 p2 au θ c s wrm wc wR⟩
 
 structure OriginOut where
   adjusted : Bool
   centre : V
   mid : V
 
-/-- `arc_from_origin(p1, p3, center, adjust_center=True, r_multiplier)`.
-    Witnesses: `m1 m3` = `norm(r1)`, `norm(r3)`; `wch` = `norm(chord)`; for the adjusted branch
-    `wh` = `sqrt(radius² − chord²/4)`, `wac` = `norm(cross(axis, chord))`; `wR ws` those of the final `arc_mid`
-    (about the centre that is finally used).  `big` is the float image of `1.001 * 0.5`. -/
-def originArc (p1 p3 C : V) (mult m1 m3 wh wac wR ws : Rat) : OriginOut :=
-  let needs := decide (absR (m1 - m3) > tol) || decide (mult ≠ 1)
-  if needs then
-    let C' := originNewCentre p1 p3 C wh wac
-    ⟨true, C', arcMid C' p1 p3 wR ws⟩
-  else ⟨false, C, arcMid C p1 p3 wR ws⟩
-
-/-- the radius that the adjusted branch of `arc_from_origin` aims at -/
+/-- the radius that the adjusted branch of `arc_from_origin` aims at:
+    `0.5*(mag1+mag3)`, times the multiplier and not below `1.001*0.5*norm(chord)` when the multiplier is not 1 -/
 def originRadius (mult m1 m3 wch : Rat) : Rat :=
   let radius0 := (1 / 2 : Rat) * (m1 + m3)
   if mult ≠ 1 then max (radius0 * mult) ((1001 / 1000 : Rat) * (1 / 2) * wch) else radius0
 
-/-! ### Float post-processing (opaque: `acos`) -/
-
-/-- nearest-ish double of a rational (scaled to avoid overflow of huge numerators) -/
-def ratToFloat (q : Rat) : Float :=
-  Float.ofInt (q.num * (2 : Int) ^ 90 / (q.den : Int)) / Float.ofNat (2 ^ 90)
-
-def piF : Float := 3.141592653589793
+/-- `arc_from_origin(p1, p3, center, adjust_center=True, r_multiplier)`:
+    `needs_adjust = abs(mag1 - mag3) > TOL`, or always when the multiplier is not 1; the adjusted call
+    recurses once with `adjust_center=False`. -/
+def originArc (p1 p3 C : V) (mult eps : Rat) : Except String OriginOut :=
+  let chord := sub p3 p1
+  let m1 := sqrtQ (nsq (sub p1 C))
+  let m3 := sqrtQ (nsq (sub p3 C))
+  let wch := sqrtQ (nsq chord)
+  if !witOk m1 (nsq (sub p1 C)) eps then .error "badwit mag1"
+  else if !witOk m3 (nsq (sub p3 C)) eps then .error "badwit mag3"
+  else if !witOk wch (nsq chord) eps then .error "badwit chord"
+  else
+    let needs := decide (absR (m1 - m3) > tol) || decide (mult ≠ 1)
+    if needs then
+      let radius := originRadius mult m1 m3 wch
+      let h2 := radius * radius - (1 / 4 : Rat) * (wch * wch)
+      if h2 < 0 then .error "nan" else   -- python: a negative number to the power 0.5 is complex / nan
+      let wh := sqrtQ h2
+      let axc := cross (cross (sub p1 C) (sub p3 C)) chord
+      let wac := sqrtQ (nsq axc)
+      if wac = 0 then .error "nan" else
+      let C' := originNewCentre p1 p3 C wh wac
+      let wR := sqrtQ (nsq (sub C' p1))
+      let ws := sqrtQ (nsq (sub (midPoint p1 p3) C'))
+      if !witOk wh h2 eps then .error "badwit height"
+      else if !witOk wac (nsq axc) eps then .error "badwit axc"
+      else if !witOk wR (nsq (sub C' p1)) eps then .error "badwit radius"
+      else if !witOk ws (nsq (sub (midPoint p1 p3) C')) eps then .error "badwit secant"
+      else if ws = 0 then .error "nan"
+      else .ok ⟨true, C', arcMid C' p1 p3 wR ws⟩
+    else
+      let wR := sqrtQ (nsq (sub C p1))
+      let ws := sqrtQ (nsq (sub (midPoint p1 p3) C))
+      if !witOk wR (nsq (sub C p1)) eps then .error "badwit radius"
+      else if !witOk ws (nsq (sub (midPoint p1 p3) C)) eps then .error "badwit secant"
+      else if ws = 0 then .error "nan"
+      else .ok ⟨false, C, arcMid C p1 p3 wR ws⟩
 
 structure Arc3Out where
   centre : V
-  cos : Rat
+  cos : Float
   exterior : Bool
   length : Float
 
-/-- `arc_length_3point`; `w1 w3` witness `norm(rad_start)`, `norm(rad_end)`.
-    `none` = `ValueError("Invalid arc points!")` (`|denom| < 1e-18`). -/
-def arc3 (pS pB pE : V) (w1 w3 : Rat) : Option Arc3Out :=
+/-- `arc_length_3point`; `none` = `ValueError("Invalid arc points!")` (`|denom| < 1e-18`).
+    Exact part: centre, radius vectors, the sign test; Float part: the two norms, `acos`, the product. -/
+def arc3 (pS pB pE : V) : Option Arc3Out :=
   let denom := arc3Denom pS pB pE
   if absR denom < mkRat 1 (10 ^ 18) then none
   else
@@ -189,11 +240,14 @@ def arc3 (pS pB pE : V) (w1 w3 : Rat) : Option Arc3Out :=
     let r1 := sub pS centre
     let r2 := sub pB centre
     let r3 := sub pE centre
-    let cosv := dot r1 r3 / (w1 * w3)
+    let mag1 := Float.sqrt (ratToFloat (nsq r1))
+    let mag3 := Float.sqrt (ratToFloat (nsq r3))
+    let cosv := ratToFloat (dot r1 r3) / (mag1 * mag3)
     let ext := decide (arc3SideTest r1 r2 r3 < 0)
-    let ang := Float.acos (ratToFloat cosv)
+    let cosv := if cosv < -1.0 then -1.0 else if cosv > 1.0 then 1.0 else cosv   -- `np.clip(…, -1.0, 1.0)`
+    let ang := Float.acos cosv
     let ang := if ext then 2 * piF - ang else ang
-    some ⟨centre, cosv, ext, ang * ratToFloat w3⟩
+    some ⟨centre, cosv, ext, ang * mag3⟩
 
 /-! ### validators: exact predicates over `Rat` with an explicit tolerance -/
 
@@ -216,61 +270,38 @@ def showVec (v : V) : String := s!"{showRat v.x},{showRat v.y},{showRat v.z}"
 
 def parseVecs? (s : String) : Option (List V) := (s.splitOn ";").mapM parseVec?
 
-/-- `c08.theta θ p1 p2 axis wa c s wrm wc wR eps` → `ok C M` | `reject` | `badwit <which>` -/
+/-- `c08.theta θ p1 p2 axis c s eps` → `ok C M` | `reject` | `badwit <which>` -/
 def handleTheta (args : List String) : Option String :=
   match args with
-  | [θ, p1, p2, a, wa, c, s, wrm, wc, wR, eps] => do
+  | [θ, p1, p2, a, c, s, eps] => do
       let θ ← parseRat? θ; let p1 ← parseVec? p1; let p2 ← parseVec? p2; let a ← parseVec? a
-      let wa ← parseRat? wa; let c ← parseRat? c; let s ← parseRat? s
-      let wrm ← parseRat? wrm; let wc ← parseRat? wc; let wR ← parseRat? wR; let eps ← parseRat? eps
-      if wa = 0 then none
-      let au := unitVec a wa   -- `Angle.__init__`: `f.unit_vector(axis)`
-      if !witOk wa (nsq a) eps then some "badwit axis"
-      else if !witOk wrm (nsq (cross (sub p2 p1) au)) eps then some "badwit rm"
-      else if !witOk wc (nsq (thetaChord p1 p2 au)) eps then some "badwit chord"
-      else if absR (c * c + s * s - 1) > eps then some "badwit cs"
+      let c ← parseRat? c; let s ← parseRat? s; let eps ← parseRat? eps
+      if thetaGuard θ && (s = 0 || absR (c * c + s * s - 1) > eps) then some "badwit cs"
       else
-        match arcFromTheta p1 p2 au θ c s wrm wc wR with
-        | none => some "reject"
-        | some o =>
-            if !witOk wR (nsq (sub p1 o.centre)) eps then some "badwit radius"
-            else some s!"ok {showVec o.centre} {showVec o.mid}"
+        match arcFromTheta p1 p2 a θ c s eps with
+        | .error e => some e
+        | .ok o => some s!"ok {showVec o.centre} {showVec o.mid}"
   | _ => none
 
-/-- `c08.origin p1 p3 C mult m1 m3 wch wh wac wR ws eps` → `ok <adjusted 0|1> C' M` | `badwit <which>` -/
+/-- `c08.origin p1 p3 C mult eps` → `ok <adjusted 0|1> C' M` | `nan` | `badwit <which>` -/
 def handleOrigin (args : List String) : Option String :=
   match args with
-  | [p1, p3, C, mult, m1, m3, wch, wh, wac, wR, ws, eps] => do
+  | [p1, p3, C, mult, eps] => do
       let p1 ← parseVec? p1; let p3 ← parseVec? p3; let C ← parseVec? C
-      let mult ← parseRat? mult; let m1 ← parseRat? m1; let m3 ← parseRat? m3; let wch ← parseRat? wch
-      let wh ← parseRat? wh; let wac ← parseRat? wac; let wR ← parseRat? wR; let ws ← parseRat? ws
-      let eps ← parseRat? eps
-      let chord := sub p3 p1
-      if !witOk m1 (nsq (sub p1 C)) eps then some "badwit mag1"
-      else if !witOk m3 (nsq (sub p3 C)) eps then some "badwit mag3"
-      else if !witOk wch (nsq chord) eps then some "badwit chord"
-      else
-        let o := originArc p1 p3 C mult m1 m3 wh wac wR ws
-        let radius := originRadius mult m1 m3 wch
-        if o.adjusted && !witOk wh (radius * radius - (1 / 4 : Rat) * (wch * wch)) eps then some "badwit height"
-        else if o.adjusted && !witOk wac (nsq (cross (cross (sub p1 C) (sub p3 C)) chord)) eps then some "badwit axc"
-        else if !witOk wR (nsq (sub o.centre p1)) eps then some "badwit radius"
-        else if !witOk ws (nsq (sub (midPoint p1 p3) o.centre)) eps then some "badwit secant"
-        else some s!"ok {if o.adjusted then 1 else 0} {showVec o.centre} {showVec o.mid}"
+      let mult ← parseRat? mult; let eps ← parseRat? eps
+      match originArc p1 p3 C mult eps with
+      | .error e => some e
+      | .ok o => some s!"ok {if o.adjusted then 1 else 0} {showVec o.centre} {showVec o.mid}"
   | _ => none
 
-/-- `c08.arc3 pS pB pE w1 w3 eps` → `ok centre cos <ext 0|1> <length bits>` | `reject` | `badwit` -/
+/-- `c08.arc3 pS pB pE` → `ok centre <ext 0|1> <cos bits> <length bits>` | `reject` -/
 def handleArc3 (args : List String) : Option String :=
   match args with
-  | [pS, pB, pE, w1, w3, eps] => do
+  | [pS, pB, pE] => do
       let pS ← parseVec? pS; let pB ← parseVec? pB; let pE ← parseVec? pE
-      let w1 ← parseRat? w1; let w3 ← parseRat? w3; let eps ← parseRat? eps
-      match arc3 pS pB pE w1 w3 with
+      match arc3 pS pB pE with
       | none => some "reject"
-      | some o =>
-          if !witOk w1 (nsq (sub pS o.centre)) eps then some "badwit r1"
-          else if !witOk w3 (nsq (sub pE o.centre)) eps then some "badwit r3"
-          else some s!"ok {showVec o.centre} {showRat o.cos} {if o.exterior then 1 else 0} {o.length.toBits}"
+      | some o => some s!"ok {showVec o.centre} {if o.exterior then 1 else 0} {o.cos.toBits} {o.length.toBits}"
   | _ => none
 
 /-- `c08.vmid p1 p2 C n g M eps` → `ok` | `fail <clause>` (validator on the implementation's point) -/
@@ -282,16 +313,16 @@ def handleVmid (args : List String) : Option String :=
       some (match onArcMidApprox p1 p2 C n g M eps with | none => "ok" | some cl => "fail " ++ cl)
   | _ => none
 
-/-- `c08.poly p0;p1;…;pn [d0,…] eps` → `ok <sum of the witnesses> <squared chord>` | `badwit i` | `reject` (fewer than 2 points) -/
+/-- `c08.poly p0;p1;…;pn eps` → `ok <sum of the segment witnesses> <squared chord>` | `badwit i` | `reject` (fewer than 2 points) -/
 def handlePoly (args : List String) : Option String :=
   match args with
-  | [pts, ds, eps] => do
-      let pts ← parseVecs? pts; let ds ← parseRatList? ds; let eps ← parseRat? eps
+  | [pts, eps] => do
+      let pts ← parseVecs? pts; let eps ← parseRat? eps
       if pts.length < 2 then some "reject"
-      else if ds.length + 1 ≠ pts.length then none
       else
-        let segs := (pts.zip pts.tail).zip ds
-        match segs.findIdx? (fun ((p, q), d) => !witOk d (nsq (sub p q)) eps) with
+        let segs := pts.zip pts.tail
+        let ds := segs.map (fun (p, q) => sqrtQ (nsq (sub p q)))
+        match (segs.zip ds).findIdx? (fun ((p, q), d) => !witOk d (nsq (sub p q)) eps) with
         | some i => some s!"badwit {i}"
         | none =>
             let first := pts.head!
